@@ -23,7 +23,7 @@ RULE = (
 # tree all terminating families are in fact linear (see evidence 'counts'); the
 # property only demands a fixed low-degree polynomial, so a linear -> quadratic
 # change is not an alarm, an exponential one is.
-ASSUMPTIONS = ["effort = number of Base.__new__ invocations (every rule-matching attempt constructs through it)", "each measurement runs in a forked child after the same warm-up, so memo state is identical for every n"]
+ASSUMPTIONS = ["effort = number of Base.__new__ invocations (every rule-matching attempt constructs through it)", "each measurement runs in a forked child after the same warm-up, so memo state is identical for every n", "the child raises Python's recursion limit to 20000 (nesting depth 30 needs > 1000 Python frames); a RecursionError beyond n = 16 (the interpreter's C-level limit) ends that family's measurements and is reported as a cap"]
 BOUNDS = {"quick": dict(N=16, cap=400000), "thorough": dict(N=32, cap=5000000)}
 
 
@@ -106,8 +106,13 @@ class Cap(BaseException):
 def measure(family, n, cap, std="f2008"):
     """runs in a forked child: returns (count, outcome)"""
     import logging
+    import sys
 
     logging.disable(logging.CRITICAL)
+    # the property is about the number of matching attempts, not about Python's
+    # recursion depth: fparser recurses ~35 frames per nesting level, so depth 30
+    # would hit the default limit of 1000 and end in RecursionError
+    sys.setrecursionlimit(20000)
     from fparser.two.parser import ParserFactory
     from fparser.common.readfortran import FortranStringReader
     from fparser.two.utils import Base
@@ -181,6 +186,12 @@ def run(task):
         res.outcomes[outcome] += 1
         if outcome == "cap":
             capped_at = n
+            break
+        if outcome == "exc:RecursionError" and n > 16:
+            # the interpreter's (C-level, not adjustable) recursion limit: each
+            # nesting level costs fparser several nested constructor calls.  The
+            # family is measured up to the deepest size the interpreter can parse.
+            res.caps.append("family %s (%s): interpreter recursion limit reached at n=%d; measured for n < %d" % (fam, std, n, n))
             break
         if outcome != "tree":
             res.violation("C20|model:family-rejected|" + fam, "family %s n=%d: %s\n%s" % (fam, n, outcome, FAMILIES[fam][1](n)), {"family": fam, "tier": tier})
